@@ -235,6 +235,7 @@ class LoopMixin:
                         gk = dict(ghost, _i=vint(i + 1))
                         for j, inv in enumerate(spec.get("invariant", [])):
                             self.oblige(r, "inv-keep", f"loop{ordn}#{j}", self.spec_eval(inv, r, gk, old=entry, goal=True), s, meta={"clause": inv})
+                        self.loop_frame(r, ordn)
                     elif r.status == "brk":
                         r.status = "run"
                         out.append(r)
@@ -278,6 +279,7 @@ class LoopMixin:
                             r.env[g] = self.spec_value(upd, r, None, old=entry)
                         for j, inv in enumerate(spec.get("invariant", [])):
                             self.oblige(r, "inv-keep", f"loop{ordn}#{j}", self.spec_eval(inv, r, None, old=entry, goal=True), s, meta={"clause": inv})
+                        self.loop_frame(r, ordn)
                         if dec0 is not None:
                             d1 = self.as_int(self.spec_value(spec["decreases"], r, None, old=entry))
                             self.oblige(r, "term", f"loop{ordn}", z3.And(d1 < dec0, dec0 >= 0), s, meta={"clause": spec["decreases"]})
@@ -291,6 +293,16 @@ class LoopMixin:
                     else:
                         out.append(r)
         return out
+
+    def loop_frame(self, r, ordn):
+        """the writes of a loop-body path never reach a final state: check them against the function's frame at the back edge"""
+        self._loop_frame_n = getattr(self, "_loop_frame_n", 0) + 1
+        saved_env = r.env
+        try:
+            r.env = {n.lstrip("*"): self.cur_entry.env[n.lstrip("*")] for n, _, _ in self.cur_contract.params}
+            self.frame_obligations(self.cur_contract, r, self.cur_entry, f"loop{ordn}.{self._loop_frame_n}")
+        finally:
+            r.env = saved_env
 
     # ---- havoc targets --------------------------------------------------------------------------------------------------
     def havoc_target(self, text, st, env=None):
